@@ -15,6 +15,12 @@ class LineCounter:
     TOOL = 3  # a free tool id (0 debugger, 1 coverage, 2 profiler, 5 optimizer)
 
     def __init__(self, func, budget=None, lines=None):
+        # decorated functions (functools.wraps / lru_cache ...) are followed to the function that holds the code
+        try:
+            import inspect
+            func = inspect.unwrap(func)
+        except Exception:  # noqa: BLE001
+            pass
         self.code = getattr(func, "__code__", func)
         self.budget = budget
         self.count = 0
